@@ -7,6 +7,7 @@ from fractions import Fraction
 from .. import common as C
 from . import c01 as K1
 from . import c02 as G
+from . import c05 as K5
 from . import c08 as K8
 from . import c09 as K9
 from . import c11 as K11
@@ -19,7 +20,8 @@ TIE_LEMMAS = ["Tie_name_sites_available", "Tie_name_sites", "Tie_signature"]
 IMPORTS = ("From Coq Require Import List Bool ZArith QArith String PrimFloat.\n"
            "From XV Require Import Base.Res Base.Assoc Base.Ops Base.FloatOps Base.QNOps Base.Seq1D Base.Tensor "
            "Model.Axis Model.GridCtor Model.Pad Model.GridOps Model.Dispatch Model.Cumsum Model.Signature "
-           "Model.UFunc Model.Transform Corr.Eval_C01 Corr.Eval_C08 Corr.Eval_C09 Corr.Eval_C11 "
+           "Model.UFunc Model.Transform Model.FaceConn Model.FacePad Corr.Eval_C01 Corr.Eval_C05 Corr.Eval_C08 "
+           "Corr.Eval_C09 Corr.Eval_C11 "
            "Corr.Eval_C13.")
 CASE_TYPE = "case13"
 RUN_FN = "run13"
@@ -32,7 +34,7 @@ RULE = ("calls from the generators of C01 (diff/interp/min/max), C09 (cumsum), C
         "prefixes / substrings of each other, upper/lower-case variants, 12-character names, the package's own "
         "temporary names temp_unique / temp_dim_target / xdummy); axis arguments as plain "
         "strings or lists. Plus: signature strings under renaming (printing, re-parsing, equivalence), COMODO "
-        "datasets under renaming of dimensions and axis attribute values, integrate with renamed metrics. The "
+        "datasets under renaming of dimensions and axis attribute values, integrate / average / metric_weighted (string, tuple, mapping) with renamed metrics. The "
         "renamed outcome must be the renaming of the original outcome (accept/reject, exception class, dims, "
         "values, names); the renamed call is also run through the model of its kind. Non-trivial = always.")
 
@@ -51,9 +53,10 @@ def describe(case, obs):
     return f"{case['kind']} renaming={case['rho']} orig={str(case['orig'])[:400]} -> {str(obs)[:400]}"
 
 
-def make_rho(rng, names):
+def make_rho(rng, names, avoid=()):
+    """an injective renaming of [names]; [avoid]: names the case keeps as they are"""
     names = list(dict.fromkeys(n for n in names if n is not None))
-    new = rng.sample(POOL, len(names))
+    new = rng.sample([p for p in POOL if p not in avoid], len(names))
     return dict(zip(names, new))
 
 
@@ -135,6 +138,33 @@ def ren_transform(case, rho):
         if case.get(f) is not None:
             out[f] = rho[case[f]]
     return out
+
+
+def ren_faces(case, rho):
+    out = copy.deepcopy(case)
+    out["ctor"] = ren_ctor(case["ctor"], rho)
+
+    def link(l):
+        return None if l is None else [l[0], rho[l[1]], l[2]]
+    out["conn"] = [[f, [[rho[a], [link(l), link(r)]] for a, (l, r) in fal]] for f, fal in case["conn"]]
+    out["dims"] = ren_dims(case["dims"], rho)
+    if case["vector"]:
+        out["vector"] = rho[case["vector"]]
+        out["partner"] = {"axis": rho[case["partner"]["axis"]], "dims": ren_dims(case["partner"]["dims"], rho),
+                          "vals": case["partner"]["vals"]}
+    if case["bw"] is not None:
+        out["bw"] = [[rho[a], w] for a, w in case["bw"]]
+    out["boundary"] = ren_kw(case["boundary"], rho)
+    out["fill"] = ren_kw(case["fill"], rho)
+    return out
+
+
+def same_faces(o1, o2, inv):
+    if ("err" in o1) != ("err" in o2):
+        return False
+    if "err" in o1:
+        return o1["err"] == o2["err"]
+    return canon(o1["dims"], o1["vals"], {}) == canon(o2["dims"], o2["vals"], inv)
 
 
 def back(d, inv):
@@ -254,21 +284,29 @@ def run_other(case):
     if o["what"] == "metrics":
         def build(m):
             n = lambda s: m.get(s, s)
-            ds = xr.Dataset(coords={n("xc"): np.arange(3.), n("yc"): np.arange(2.)})
+            ds = xr.Dataset(coords={n("xc"): np.arange(3.), n("yc"): np.arange(2.), n("xl"): np.arange(3.) - .5,
+                                    n("yl"): np.arange(2.) - .5})
             ds[n("dx")] = (n("xc"), np.array([1., 2., 4.]))
             ds[n("dy")] = (n("yc"), np.array([3., 5.]))
             ds[n("area")] = ((n("yc"), n("xc")), np.outer([3., 5.], [1., 2., 4.]) * 1.5)
             mets = {(n("X"),): [n("dx")], (n("Y"),): [n("dy")]}
             if o["with_area"]:
                 mets[(n("X"), n("Y"))] = [n("area")]
-            g = Grid(ds, coords={n("X"): {"center": n("xc")}, n("Y"): {"center": n("yc")}}, metrics=mets,
+            g = Grid(ds, coords={n("X"): {"center": n("xc"), "left": n("xl")},
+                                 n("Y"): {"center": n("yc"), "left": n("yl")}}, metrics=mets,
                      periodic=False, autoparse_metadata=False)
             da = xr.DataArray(np.arange(6.).reshape(2, 3) + 1, dims=[n("yc"), n("xc")], name=n("temp"))
             axes = [n(a) for a in o["axes"]]
             arg = axes[0] if len(axes) == 1 and o["as_str"] else axes
             r = g.integrate(da, arg)
             r2 = g.average(da, arg)
-            return list(r.dims), np.asarray(r.values).ravel().tolist(), np.asarray(r2.values).ravel().tolist()
+            # metric_weighted given as a plain string, a tuple, and a mapping
+            mw = axes[0] if o["as_str"] else tuple(axes)
+            r3 = g.interp(da, axes[0], metric_weighted=mw, boundary="extend") if o.get("mw", True) else r2
+            r4 = g.interp(da, axes, metric_weighted={a: a for a in axes}, boundary="extend")
+            return list(r.dims), np.asarray(r.values).ravel().tolist(), \
+                np.asarray(r2.values).ravel().tolist() + np.asarray(r3.values).ravel().tolist() + \
+                np.asarray(r4.values).ravel().tolist()
         try:
             d1, v1, w1 = build({})
             d2, v2, w2 = build(rho)
@@ -310,6 +348,10 @@ def generate(rng, tier):
             names = ctor_names(o["ctor"]) + [d for a in o["args"] for d, _ in a["dims"]] + \
                 [d for a in o["in_sig"] + o["out_sig"] for d, _ in a]
             cases.append({"kind": "ufunc", "rho": make_rho(rng, names), "orig": o})
+        elif r < 9 and i % 20 >= 10:
+            o = K5.gen_case(rng, nfaces=rng.randint(1, 3))
+            names = ctor_names(o["ctor"]) + ["t"] + list(o["ctor"]["N"])
+            cases.append({"kind": "faces", "rho": make_rho(rng, names, avoid=("face",)), "orig": o})
         elif r < 9:
             o = K8.gen_grid(rng)
             names = ["zc", "zo", "x", "t", "Z", o["da_name"], o["td_name"], o["tname"]]
@@ -329,12 +371,12 @@ def generate(rng, tier):
             else:
                 o = {"what": w, "axes": rng.sample(["X", "Y"], rng.randint(1, 2)), "with_area": rng.random() < 0.5,
                      "as_str": rng.random() < 0.5}
-                rho = make_rho(rng, ["X", "Y", "xc", "yc", "dx", "dy", "area", "temp"])
+                rho = make_rho(rng, ["X", "Y", "xc", "yc", "xl", "yl", "dx", "dy", "area", "temp"])
             cases.append({"kind": "other", "rho": rho, "orig": o})
     return cases
 
 
-RUNNERS = {"op": (ren_op, K1.run_impl, same_op), "cumsum": (ren_op, K9.run_impl, same_op),
+RUNNERS = {"faces": (ren_faces, K5.run_impl, same_faces), "op": (ren_op, K1.run_impl, same_op), "cumsum": (ren_op, K9.run_impl, same_op),
            "pad": (ren_pad, G.run_impl, same_pad), "ufunc": (ren_ufunc, K11.run_impl, same_ufunc)}
 
 
@@ -360,7 +402,7 @@ def coq_case(case, obs):
         # (the pad replays are compared at implementation level only: the record fields of the C02
         # evaluator clash with those of C01 in one cases file)
         return f"K13_other {same}"
-    mod = {"op": K1, "cumsum": K9, "pad": G, "ufunc": K11, "transform": K8}[kind]
+    mod = {"op": K1, "cumsum": K9, "pad": G, "ufunc": K11, "transform": K8, "faces": K5}[kind]
     term = mod.coq_case(obs["ren"], obs["o2"])
     if kind == "transform":
         return f"K13_transform {same} ({term})"
